@@ -5,7 +5,7 @@ FUNCTIONS = ["icalendar.cal.Component.from_ical (error routing)", "icalendar.cal
              "icalendar.timezone.tzp.TZP.timezone/cache_timezone_component", "icalendar.timezone.zoneinfo.ZONEINFO.timezone",
              "icalendar.timezone.pytz.PYTZ.timezone/create_timezone", "icalendar.cal.Timezone.to_tz/get_transitions/_extract_offsets"]
 EXPLANATION = ("Engine S: on every path of every date/time/duration/period/offset decoder's AST, for all-digit and near-grammar shape "
-               "strings with symbolic digits, the only exception type is ValueError.  CrossHair: a pool of 60 malformed / hostile "
+               "strings with symbolic digits, the only exception type is ValueError.  CrossHair: a pool of 66 malformed / hostile "
                "property lines at a symbolic position in a lenient VEVENT and a strict VTODO (isolation, exactly one error entry, "
                "everything else identical), pairs of VTIMEZONE malformedness flags, and BEGIN/END line-kind vectors - under both "
                "providers - raise nothing but ValueError, also while serialising and walking the result.")
@@ -20,7 +20,7 @@ CONDITIONS = [
 ] + [X("isolation", "c04.py", "h_isolation", timeout=600, samples=10, params={"pytz_provider": pz, "chunk": ch},
        what="malformed line in VEVENT is dropped alone (1 error entry, rest identical); in VTODO => ValueError; nothing else is ever raised",
        bound="pool lines %d..%d x 5 positions, provider %s" % (ch * 10, ch * 10 + 9, "pytz" if pz else "zoneinfo"))
-     for pz in (False, True) for ch in range(6)
+     for pz in (False, True) for ch in range(7)
 ] + shards("vtimezone", "c04.py", "h_vtimezone", {"f1": list(range(14)), "pytz_provider": [False, True]}, timeout=600, samples=10,
            what="malformed VTIMEZONE definitions (pairs of flags), optionally used by an event: result or ValueError", bound="14 flags, all pairs with the pinned first flag"
 ) + [X("skeleton", "c04.py", "h_skeleton", timeout=600, samples=10, params={"m": m, "k0": k0},
